@@ -9,11 +9,11 @@ mkdir -p "$DST"
 [ "$(realpath "$SRC")" = "$(realpath "$DST")" ] || cp "$SRC/patch.diff" "$SRC/demo.py" "$SRC/meta.json" "$DST/" || exit 2
 D=$(mktemp -d /tmp/sedseed.XXXXXX)
 git -C /repo worktree add --detach "$D" HEAD >/dev/null 2>&1 || { echo "worktree failed"; exit 2; }
-run_demo() { ( cd "$D" && mkdir -p seed_out && cp "$DST/demo.py" seed_out/demo.py && PYTHONPATH="$D" PYTHONDONTWRITEBYTECODE=1 timeout 300 /venv/bin/python -W ignore seed_out/demo.py >/tmp/seed_demo.out 2>&1; echo $? ); }
+run_demo() { ( cd "$D" && mkdir -p seed_out && cp "$DST/demo.py" seed_out/demo.py && PYTHONPATH="$D" PYTHONDONTWRITEBYTECODE=1 timeout 300 /venv/bin/python -W ignore seed_out/demo.py >$D.demo.out 2>&1; echo $? ); }
 sed -i "s|/tmp/seed_[A-Za-z0-9_]*|$D|g" "$DST/demo.py" 2>/dev/null   # demos that hard-code their worktree path
 rc0=$(run_demo)
 ( cd "$D" && git apply "$DST/patch.diff" ) || { echo "patch does not apply"; git -C /repo worktree remove --force "$D"; exit 2; }
-rc1=$(run_demo); tail -3 /tmp/seed_demo.out | cut -c1-300 > /tmp/seed_demo_tail.txt
+rc1=$(run_demo); tail -3 $D.demo.out | cut -c1-300 > $D.demo.tail
 tests=$( cd "$D" && PYTHONPATH="$D" timeout 1500 /venv/bin/python -m pytest -q -p no:cacheprovider --timeout=900 sedfitter 2>&1 | grep -E "passed|failed" | tail -1 )
 sed -i "s|$D|<worktree>|g" "$DST/demo.py"
 echo "demo without patch: rc=$rc0   with patch: rc=$rc1   tests with patch: $tests"
@@ -25,7 +25,7 @@ for P in "$@"; do
     if echo "$out" | grep -q "no-failing-input-found"; then res="$res $P:not-shown"; else res="$res $P:VIOLATION"; fi
   else res="$res $P:quiet"; fi
 done
-git -C /repo worktree remove --force "$D"; rm -rf "$D"
+git -C /repo worktree remove --force "$D"; rm -rf "$D" "$D.demo.out" "$D.demo.tail"
 python3 - "$DST/meta.json" "$rc0" "$rc1" "$tests" "$res" <<'PY'
 import json, sys
 p, rc0, rc1, tests, res = sys.argv[1:6]
